@@ -68,6 +68,29 @@ class DictObj(HObj):
         return res
 
 
+class GenV(V):
+    """a generator object: the call of a generator function that has not been run yet"""
+    __slots__ = ("finfo", "selfv", "args", "kwargs")
+
+    def __init__(self, finfo, selfv, args, kwargs):
+        self.finfo, self.selfv, self.args, self.kwargs = finfo, selfv, tuple(args), dict(kwargs)
+
+    def __repr__(self):
+        return "<generator %s>" % self.finfo.qual
+
+
+def is_generator_func(node):
+    stack = list(node.body)
+    while stack:
+        n = stack.pop()
+        if isinstance(n, (ast.Yield, ast.YieldFrom)):
+            return True
+        if isinstance(n, (ast.FunctionDef, ast.AsyncFunctionDef, ast.Lambda, ast.ClassDef)):
+            continue
+        stack.extend(ast.iter_child_nodes(n))
+    return False
+
+
 class Event:
     __slots__ = ("kind", "guard", "data", "loops", "func", "node", "seq")
 
@@ -1113,6 +1136,8 @@ class _CallMixin:
         if self.depth > MAX_DEPTH or any(fr.finfo is finfo for fr in self.frames[-3:]):
             self.event("opaquecall", (finfo.qual, tuple(args), ()), node)
             return Op("call:" + finfo.qual, *args)
+        if not getattr(self, "_running_gen", False) and is_generator_func(finfo.node):
+            return GenV(finfo, selfv, args, kwargs)
         a = finfo.node.args
         params = [x.arg for x in a.posonlyargs + a.args]
         env = {}
@@ -1143,6 +1168,11 @@ class _CallMixin:
         flat = self.raw_guard_list()
         fr.base_guard_len = len(flat)
         self.event("call", (finfo.qual, tuple(allargs), tuple(sorted(kwargs.items()))), node)
+        gen_consumer = getattr(self, "_gen_consumer", None)
+        if gen_consumer is not None:
+            fr.on_yield, fr.consumer_frame = gen_consumer
+            self._gen_consumer = None
+        self._running_gen = False
         self.frames.append(fr)
         self.depth += 1
         saved_guard = self.guard
@@ -1748,8 +1778,36 @@ class _LoopMixin:
         lv = {w: Sym("lv%d:%s" % (L.lid, self.loc_name(w)), "loopvar", (L.lid, w)) for w in locs}
         # pass 2: one symbolic iteration with havoc'd loop-carried locations
         self.writelog = set()
-        self.run_body(st, L, elem, lv)
-        nxt = {w: self.simp(self.loc_get(w)) for w in locs}
+        nd_before = len(fr.dead)
+        brk2 = self.run_body(st, L, elem, lv)
+        own = set(getattr(L, "own_conds", set()))
+        # on paths that leave the loop the 'next' value of a carried location is irrelevant
+        for x in list(brk2) + list(fr.dead[nd_before:]):
+            own.add(not_(x))
+            if isinstance(x, Op) and x.op == "and":
+                pass
+
+        def under_own(t):
+            n = 0
+            while isinstance(t, Ite) and n < 20:
+                parts = t.c.args if isinstance(t.c, Op) and t.c.op == "and" else (t.c,)
+                if all(p in own for p in parts):
+                    t = t.a
+                elif any(not_(p) in own for p in parts):
+                    t = t.b
+                elif not_(t.c) in own:
+                    t = t.b
+                else:
+                    # not(brk) with brk = and(own..., x): under the own conditions this is not(x)
+                    rest = [p for p in parts if p not in own]
+                    if len(rest) < len(parts) and rest and all(any(isinstance(o, Op) and o.op == "not" and isinstance(o.args[0], Op) and o.args[0].op == "and"
+                                                                   and set(o.args[0].args) - own == {not_(r)} for o in own) for r in rest):
+                        t = t.a
+                    else:
+                        break
+                n += 1
+            return t
+        nxt = {w: under_own(self.simp(self.loc_get(w))) for w in locs}
         closed = {}
         for w in locs:
             d = self.delta_of(nxt[w], lv[w], L, lv)
@@ -2194,3 +2252,148 @@ class Interpreter(_ExprMixin, _CallMixin, _StmtMixin, _LoopMixin, _ExtMixin, Int
 
     def obj(self, ref):
         return self.heap[ref.oid]
+
+
+# ---------------------------------------------------------------- generators
+def _run_generator(self, gen, consume, node):
+    """execute the generator function's body; at every yield run consume(value) in the consumer's frame"""
+    consumer = self.frames[-1]
+    self._gen_consumer = (consume, consumer)
+    self._running_gen = True
+    try:
+        self.call_func(gen.finfo, gen.selfv, list(gen.args), dict(gen.kwargs), node)
+    finally:
+        self._running_gen = False
+        self._gen_consumer = None
+
+
+def _ev_Yield(self, n):
+    v = self.ev(n.value) if n.value is not None else NONE
+    self.do_yield(v, n)
+    return NONE
+
+
+def _ev_YieldFrom(self, n):
+    src = self.simp(self.ev(n.value))
+    if isinstance(src, GenV):
+        self.run_generator(src, lambda v: self.do_yield(v, n), n)
+        return NONE
+    els = self.concrete_iter(src)
+    if els is not None and len(els) <= UNROLL_MAX:
+        for e in els:
+            self.do_yield(e, n)
+        return NONE
+    raise AnalysisError("yield from over a symbolic iterable is not modelled (line %s)" % getattr(n, "lineno", "?"))
+
+
+def _do_yield(self, v, node):
+    gfr = None
+    for f in reversed(self.frames):
+        if getattr(f, "on_yield", None) is not None:
+            gfr = f
+            break
+    if gfr is None:
+        raise AnalysisError("yield outside a driven generator (line %s)" % getattr(node, "lineno", "?"))
+    consumer = gfr.consumer_frame
+    self.event("yield", (v,), node)
+    saved_guard = self.guard
+    flat = self.raw_guard_list()
+    nd0, nr0 = len(consumer.dead), len(consumer.rdead)
+    ctl_state = [(len(c.brk), len(c.cont)) for c in consumer.loop_stack]
+    self.guard = flat
+    self.frames.append(consumer)
+    try:
+        gfr.on_yield(v)
+    finally:
+        self.frames.pop()
+        self.guard = saved_guard
+    # whatever made the consumer stop iterating (break / return / raise) also stops the generator
+    stop = list(consumer.dead[nd0:]) + list(consumer.rdead[nr0:])
+    for c, (nb, nc) in zip(consumer.loop_stack, ctl_state):
+        stop += c.brk[nb:]
+    for cnd in stop:
+        gfr.dead.append(cnd)
+
+
+Interpreter.run_generator = _run_generator
+Interpreter.ev_Yield = _ev_Yield
+Interpreter.ev_YieldFrom = _ev_YieldFrom
+Interpreter.do_yield = _do_yield
+
+_orig_st_For = _LoopMixin.st_For
+
+
+def _st_For_gen(self, st):
+    it = self.simp(self.ev(st.iter))
+    if isinstance(it, GenV):
+        fr = self.frames[-1]
+        ctl = LoopCtl()
+        ctl.base_set = set(self.cur_guard_list(state=True))
+        fr.loop_stack.append(ctl)
+        self.event("for_generator", (it.finfo.qual,), st)
+
+        def consume(v):
+            ctl.cont = []
+            self.assign(st.target, v, st)
+            if self.feasible():
+                self.exec_block(st.body)
+            ctl.cont = []
+        try:
+            self.run_generator(it, consume, st)
+        finally:
+            brk = list(ctl.brk)
+            fr.loop_stack.pop()
+        if st.orelse:
+            self.guard.append(and_(*[not_(b) for b in brk]))
+            if self.feasible():
+                self.exec_block(st.orelse)
+            self.guard.pop()
+        return
+    # re-use the evaluated iterable (avoid evaluating the expression twice)
+    return _orig_st_For_with(self, st, it)
+
+
+def _orig_st_For_with(self, st, it):
+    elems = self.concrete_iter(it)
+    fr = self.frames[-1]
+    if elems is not None and len(elems) <= UNROLL_MAX:
+        ctl = LoopCtl()
+        fr.loop_stack.append(ctl)
+        self.event("loop_unrolled", (len(elems),), st)
+        ctl.base_set = set(self.cur_guard_list(state=True))
+        for e in elems:
+            ctl.cont = []
+            if not self.feasible():
+                break
+            self.assign(st.target, e, st)
+            self.exec_block(st.body)
+        ctl.cont = []
+        brk = list(ctl.brk)
+        fr.loop_stack.pop()
+        if st.orelse:
+            self.guard.append(and_(*[not_(b) for b in brk]))
+            if self.feasible():
+                self.exec_block(st.orelse)
+            self.guard.pop()
+        return
+    self.summarise(st, "for", it)
+
+
+Interpreter.st_For = _st_For_gen
+Interpreter.st_AsyncFor = _st_For_gen
+
+_orig_x_list = _ExtMixin.x_list
+
+
+def _x_list_gen(self, a, k, n):
+    if a:
+        v = self.simp(a[0])
+        if isinstance(v, GenV):
+            res = self.mk_list([])
+            o = self.heap[res.oid]
+            self.run_generator(v, lambda val: self.list_method(res, o, "append", [val], {}, n), n)
+            return res
+    return _orig_x_list(self, a, k, n)
+
+
+Interpreter.x_list = _x_list_gen
